@@ -50,9 +50,9 @@ fn main() {
         "A case is a stream of segments (one command with parameters and terminator, or plain text) for one emulation, fed char by char to print_char on an 80x25 terminal buffer, \
          get_next_action drained after every char (a loop is followed for 100 steps), get_picture_data read back (RIP: at the end; IGS: after every segment). Parsers are built as icy_term builds them \
          (rip::Parser over ansi::Parser with an empty cache directory; igs::Parser over DrawExecutor). \
-         rip_table (exhaustive): 54 commands of the level-0/1/9 tables x {fresh, state-setting preamble} x every parameter string over {0,1,Z} of length 0..=6 (thorough: 0..=8), 9 periodic patterns for every longer length up to 24, and for the next two even lengths (8 and 10; thorough 10 and 12) all strings of two-digit fields over {00,0Z,ZZ}. \
-         igs_table (exhaustive): 46 letters + unknown + '&' x {fresh, preamble} x 0..=12 parameters x value patterns over {0,1,3,8,200,20000} (uniform, selector+uniform, ramps, point counts, one or two large positions). \
-         igs_loops (exhaustive): '&' over every letter x (4 small ranges incl. step 0 x 7 parameter styles (x, y, +n, -n, !n, mixed) + range 0..20001 step 20000 x {x, y}) x 3 declared counts x {fresh, preamble}. \
+         rip_table (exhaustive): 54 commands of the level-0/1/9 tables x {fresh, state-setting preamble} x every parameter string over {0,1,Z} of length 0..=6 (thorough: 0..=8), 9 periodic patterns for every longer length up to 24, and for the lengths 8 and 10 (thorough: 10 and 12) all strings of two-digit fields over {00,0Z,ZZ}. \
+         igs_table (exhaustive): 46 letters + unknown + '&' x {fresh, preamble} x 0..=12 parameters x value patterns over {0,1,3,8,200,40000} (uniform, selector+uniform, ramps, point counts, one or two large positions). \
+         igs_loops (exhaustive): '&' over every letter x (4 small ranges incl. step 0 x 7 parameter styles (x, y, +n, -n, !n, mixed) + range 0..40001 step 40000 x {x, y}) x 3 declared counts x {fresh, preamble}. \
          rip_pairs / igs_pairs (exhaustive): every state-setting command with each of its selector values (fonts x direction x size, write modes, line and fill styles, button styles x label orientation, \
          viewports in / across / outside the canvas, palettes, saved images; IGS: fill attributes, pens incl. numbers > 15, marker and line types, drawing modes, text effects, resolution, initialise, grabbed blocks) \
          followed by every drawing command with ordinary in-canvas parameters. \
@@ -107,8 +107,8 @@ fn main() {
 
     // ---- random streams (state carries over from command to command)
     let k4 = known.clone();
-    eng.generated_min(iso("rip_random", 60_000, 2_000_000).shrink_budget(100), || rip::case_strategy(10), move |c| rip::check(c, &k4), |_| "rip|stream".to_string(), rip::minimize);
+    eng.generated_min(iso("rip_random", 80_000, 3_000_000).shrink_budget(100), || rip::case_strategy(10), move |c| rip::check(c, &k4), |_| "rip|stream".to_string(), rip::minimize);
     let k5 = known.clone();
-    eng.generated_min(iso("igs_random", 60_000, 2_000_000).shrink_budget(40), || igs::case_strategy(10), move |c| igs::check(c, &k5), |_| "igs|stream".to_string(), igs::minimize);
+    eng.generated_min(iso("igs_random", 60_000, 1_200_000).shrink_budget(40), || igs::case_strategy(10), move |c| igs::check(c, &k5), |_| "igs|stream".to_string(), igs::minimize);
     eng.run();
 }
